@@ -130,6 +130,19 @@ CHECKS = {
        "single contradictions must end with exit status 1 and an ERROR line - not a signal, not success.",
   note="The union of the metadata is held fixed across variants by construction; only accepted-by-specification "
        "distributions are generated (every loom keeps its CPUs, every process its app id)."),
+ "C16": dict(
+  cat="exploration", ref="DESIGN.md section 3, C16",
+  technique="runtime monitoring: differential run of the real ovnisort against a stable sort of the original event list (independent decoder), plus idempotence, check mode and emulator acceptance",
+  text="Traces of 1-3 streams built from a sorted base of uniquely numbered events with many equal clocks and 1-8 OU[ OU] "
+       "regions (0-20 normal and jumbo events, internally sorted or not, belonging up to 2000 events back, also into a "
+       "previous region and at the start) are sorted by the real ovnisort with look-back windows from just above the "
+       "needed depth (the ring wraps and is rebuilt) to the default. Exit 0 is required and the decoded result must "
+       "equal the stable sort by clock of the original list (permutation, bytes, order and tie stability in one "
+       "comparison), same size; a second run must change nothing, ovnisort -c and ovniemu -l must accept. Streams whose "
+       "destination is more than twice the window back must fail with a message. Thorough runs a share under "
+       "ASan+UBSan with the heap stream buffer.",
+  note="Nothing is asserted between n/2 and 2n events of look-back. Tie stability rests on glibc's qsort being a "
+       "merge sort."),
 }
 
 NOT_YET = "check not implemented yet in this revision (work in progress, see DESIGN.md section 3)"
